@@ -4,7 +4,8 @@ EXTENDS Client
 
 CONSTANTS T, Tries, BufCap, V4, XidOf, Urgent, Timed, CancelChecksIdentity, TimerPerIteration,
           MaxDgrams, DgramAttrs, MaxNow, AllowClose, AllowCtx, MaxTry,
-          MaxCalls, WFault, TimeoutCarriesOver, WriteErrKeepsEntry, AllowFire, FireRegisters
+          MaxCalls, WFault, TimeoutCarriesOver, WriteErrKeepsEntry, AllowFire, FireRegisters,
+          RFault, ReadErrEndsCalls, LoopSurvivesClose
 
 \* values for the constants that a .cfg file cannot express (substituted with <-)
 XidAll7 == [c \in Callers |-> 7]
@@ -19,7 +20,8 @@ AttrsR == {[xid |-> 7, kind |-> "rej"]}
 Cfg == [T |-> T, tries |-> Tries, bufcap |-> BufCap, v4 |-> V4, xid |-> XidOf, urgent |-> Urgent, timed |-> Timed,
         cancelChecksIdentity |-> CancelChecksIdentity, timerPerIteration |-> TimerPerIteration,
         maxCalls |-> MaxCalls, wfault |-> WFault, timeoutCarriesOver |-> TimeoutCarriesOver,
-        writeErrKeepsEntry |-> WriteErrKeepsEntry, fireRegisters |-> FireRegisters]
+        writeErrKeepsEntry |-> WriteErrKeepsEntry, fireRegisters |-> FireRegisters,
+        rfault |-> RFault, readErrEndsCalls |-> ReadErrEndsCalls, loopSurvivesClose |-> LoopSurvivesClose]
 
 Init == InitWith(Cfg)
 EnvInject(xid, kind) == Len(dgs) < MaxDgrams /\ Inject([xid |-> xid, kind |-> kind])
@@ -29,12 +31,16 @@ EnvTick == now < MaxNow /\ Tick
 Next == \/ \E c \in Callers : Start(c) \/ Again(c)
         \/ AllowFire /\ \E c \in Callers : Fire(c) \/ FireFail(c)
         \/ Internal
+        \/ LoopReadErr
         \/ EnvClose
         \/ \E a \in DgramAttrs : EnvInject(a.xid, a.kind)
         \/ \E c \in Callers : EnvCtx(c)
         \/ EnvTick
 Spec == Init /\ [][Next]_vars
-Fair == Spec /\ WF_vars(Internal) /\ WF_vars(Tick)
+\* liveness is checked over a bounded clock: a call is started only while its whole budget still fits (a run that has used
+\* up its time may stop), and fairness is on the bounded tick
+LiveNext == Next /\ \A c \in Callers : (cs[c].pc = "idle" /\ cs'[c].pc # "idle") => now + Budget <= MaxNow
+Fair == Init /\ [][LiveNext]_vars /\ WF_vars(Internal) /\ WF_vars(EnvTick)
 
 Bound == \A c \in Callers : cs[c].try <= MaxTry
 
